@@ -230,4 +230,24 @@ theorem propFields_none_iff : ∀ (ps : List (String × PV)),
           · have := ih.mpr ⟨p, hp, h1, h2⟩
             simp [hrest] at this
 
+/-! ### the reserved member names -/
+
+def fixedNames : List String := ["ts_start", "ts", "mdl", "msg", "tpl"]
+
+theorem reservedKey_iff (k : String) : reservedKey k = true ↔ k ∈ fixedNames := by
+  unfold reservedKey fixedNames
+  simp [Bool.or_eq_true]
+  constructor
+  · rintro ((((h | h) | h) | h) | h) <;> simp [h]
+  · rintro (h | h | h | h | h) <;> simp [h]
+
+theorem fixedFields_keys (e : Event) : ∀ k ∈ keys (fixedFields e), k ∈ fixedNames := by
+  unfold fixedFields fixedNames
+  cases e.extent <;> simp [keys]
+
+theorem fixedFields_nodup (e : Event) : (keys (fixedFields e)).Nodup := by
+  unfold fixedFields
+  cases e.extent <;> simp [keys]
+
+
 end EmitModel.Encode
